@@ -33,6 +33,8 @@ def parseFr (s : String) : Option Fr :=
   | "PP" :: _ :: _ :: _ :: "!hpack" :: _ => some .other
   | ["H", sid, fl, _len, f] => do some (.headers (← sid.toNat?) (← fl.toNat?) (parseFieldsEq f))
   | ["PP", sid, pr, _len, f] => do some (.pushPromise (← sid.toNat?) (← pr.toNat?) (parseFieldsEq f))
+  | "H" :: _ => some .other                                  -- a block that failed to decode part-way (`…,!hpack:<kind>`)
+  | "PP" :: _ => some .other
   | ["Hfrag", sid, _, _] => do some (.fragment (← sid.toNat?))
   | ["PPfrag", sid, _, _] => do some (.fragment (← sid.toNat?))
   | ["C", sid, fl, _] => do
